@@ -59,8 +59,18 @@ NEG = {("Normal", "mu"): -0.7, ("Weibull", "gamma"): -0.5, ("LogNormal", "mu"): 
 INT = {("ExpWeibull", "delta"): 5, ("ScipyBeta", "scale"): 5}
 
 
+# generalised gamma, small-magnitude data: (m, c, lambda_) generating vectors, medians 0.065 .. 0.25
+SMALLDATA = {"smalldata_a": dict(m=2.0, c=2.0, lambda_=20.0), "smalldata_b": dict(m=3.0, c=1.0, lambda_=1 / 0.07),
+             "smalldata_c": dict(m=5.0, c=1.0, lambda_=20.0)}
+# parameters that are not positive by definition of the family (everything else must come out > 0)
+SIGNED = {("Weibull", "gamma"), ("LogNormal", "mu"), ("Normal", "mu"), ("VonMises", "mu"), ("ScipyGamma", "loc"),
+          ("ScipyRayleigh", "loc"), ("ScipyBeta", "loc"), ("ScipyVonMises", "loc")}
+
+
 def special_value(fam, n, kind):
     """the fixed value of a special case (spec/ParamRoutingOps.tla SpecialKinds)"""
+    if kind in SMALLDATA:
+        return SMALLDATA[kind][n]
     truth = D.STORED[fam][n]
     if kind == "zero":
         return 0.0
@@ -121,6 +131,8 @@ def fixed_for(case):
 
 
 def start_for(case):
+    if case.get("special") in SMALLDATA:
+        return {}                        # the default start values of the class
     st = dict(START[case["fam"]])
     if case["fam"] == "ScipyBeta" and case.get("special", "regular") != "regular":
         st["scale"] = 7.0                # support of the start values must contain the data for every fixed loc
@@ -222,15 +234,17 @@ def fit_record(vc, rid, case, seed=0):
                sname=case.get("sname", "none"), fam=fam, F=F, fitm=fitm, data=dk, variant=variant, exc="",
                cdev=BIG, fattr=False, evalsame=False, evalkeep=False,
                outcome1="none", fdev1=BIG, free1changed=False, free1finite=False,
-               outcome2="none", fdev2=BIG, free2changed=False, free2finite=False,
+               outcome2="none", fdev2=BIG, free2changed=False, free2finite=False, free1adm=True, free2adm=True,
                llgen1=BIG, llpert1=BIG, llgen2=BIG, llpert2=BIG, llfit=[])
     rng = np.random.default_rng([seed, variant, sum(map(ord, fam + fitm + dk + special + "".join(F)))])
-    n = [400, 250, 900, 400][variant % 4]
+    n = 1000 if special in SMALLDATA else [400, 250, 900, 400][variant % 4]
     # own-family data are generated WITH the fixed parameters at their fixed values (regular cases and
     # f_<n>=None cases): the generating parameters then satisfy the constraints of the fit
     genpar = None
     if dk == "own" and special in ("regular", "none") and fam != "ScipyVonMises":
         genpar = {k: (fx[k] if k in fx else D.STORED[fam][k]) for k in names}
+    if special in SMALLDATA:
+        genpar = dict(SMALLDATA[special])
     gen = (lambda f, m, r: own_data(f, m, r, genpar)) if genpar else (own_data if dk == "own" else other_data)
     if special == "wrap":     # directions centred at the fixed value 4.0 rad (scipy/numpy return them in [-pi, pi])
         gen = lambda f, m, r: own_data(f, m, r, dict(D.STORED[f], **{"loc" if f == "ScipyVonMises" else "mu": 4.0}))
@@ -247,7 +261,7 @@ def fit_record(vc, rid, case, seed=0):
             ok_attr = all(fattr_ok(o, fam, fx) for o in objs)
             rec["ctorsame"] = all(dict(o.parameters) == dict(dist.parameters) for o in objs)
             # Eval
-            resolved = {k: (fx[k] if k in F else start[k]) for k in names}
+            resolved = {k: (fx[k] if k in F else start[k]) for k in names if k in F or k in start}
             ref = D.build(vc, fam, resolved)
             before = [dict(o.parameters) for o in objs]
             same = True
@@ -275,6 +289,7 @@ def fit_record(vc, rid, case, seed=0):
                 cur = dict(dist.parameters)
                 rec[f"free{k}changed"] = all(cur[m] != prev[m] for m in free)
                 rec[f"free{k}finite"] = all(np.ndim(cur[m]) == 0 and np.isfinite(cur[m]) for m in free)
+                rec[f"free{k}adm"] = all(cur[m] > 0 for m in free if (fam, m) not in SIGNED)
                 ok_attr = ok_attr and fattr_ok(dist, fam, fx)
                 prev = cur
                 if oc == "ok" and fitm == "mle" and fam == "NormFit":
@@ -495,7 +510,8 @@ def judge(ctx, vc, fcases, ccases, summary=True, reps=1):
                           f"exc={r['exc']!r} cdev={r['cdev']} outcome={r['outcome1']}/{r['outcome2']} "
                           f"{r.get('msg1', '')!r} fdev={r['fdev1']}/{r['fdev2']}e-15 evalsame={r['evalsame']} "
                           f"fattr={r['fattr']} free changed={r['free1changed']}/{r['free2changed']} "
-                          f"finite={r['free1finite']}/{r['free2finite']} final={r.get('final')} "
+                          f"finite={r['free1finite']}/{r['free2finite']} admissible={r['free1adm']}/{r['free2adm']} "
+                          f"final={r.get('final')} "
                           f"loglik(fit)-loglik(generating)={r['llgen1']}/{r['llgen2']}e-6 "
                           f"loglik(fit)-max loglik(+-1%)={r['llpert1']}/{r['llpert2']}e-6 "
                           f"ordsame={r.get('ordsame')} at {r.get('ordpos')} other={r.get('orddiff', '')}",
@@ -531,6 +547,7 @@ def selftest(ctx, frec, crec):
             (frec, "FixedStable", dict(fdev2=2000)),
             (frec, "FreeEstimated", dict(free1changed=False)),
             (frec, "FreeEstimated", dict(llpert2=-50000)),
+            (frec, "FreeEstimated", dict(free1adm=False)),
             (frec, "FreeEstimated", dict(llgen1=-50000)),
             (frec, "CaseOrderIndependent", dict(ordsame=False)),
             (crec, "FixedSameForAllGiven", dict(postok=False)),
